@@ -17,9 +17,14 @@ package hessian
 
 import (
 	"io"
+	"unicode"
+	"unicode/utf8"
 )
 
 func lowerName(name string) (string, error) {
+	if name == "" {
+		return name, nil
+	}
 	if name[0] >= 'a' && name[0] <= 'z' {
 		return name, nil
 	}
@@ -29,10 +34,17 @@ func lowerName(name string) (string, error) {
 		copy(bs[1:], name[1:])
 		return string(bs), nil
 	}
+	// a first letter outside ASCII (Élan): exported Go names begin with an upper-case letter of any alphabet
+	if r, size := utf8.DecodeRuneInString(name); r != utf8.RuneError && unicode.IsUpper(r) {
+		return string(unicode.ToLower(r)) + name[size:], nil
+	}
 	return name, nil
 }
 
 func capitalizeName(name string) string {
+	if name == "" {
+		return name
+	}
 	if name[0] >= 'A' && name[0] <= 'Z' {
 		return name
 	}
@@ -41,6 +53,9 @@ func capitalizeName(name string) string {
 		bs[0] = byte(name[0] - _asciiGap)
 		copy(bs[1:], name[1:])
 		return string(bs)
+	}
+	if r, size := utf8.DecodeRuneInString(name); r != utf8.RuneError && unicode.IsLower(r) {
+		return string(unicode.ToUpper(r)) + name[size:]
 	}
 	return name
 }
